@@ -13,9 +13,14 @@
 package main
 
 import (
+	"bufio"
+	"encoding/json"
 	"flag"
 	"fmt"
 	"os"
+	"sync"
+
+	"verif/vh"
 )
 
 func main() {
@@ -39,3 +44,34 @@ func main() {
 		os.Exit(3)
 	}
 }
+
+// ftrace is vh.Trace with a Flush (the flow mode runs long; a killed driver must leave what it saw).
+type ftrace struct {
+	mu sync.Mutex
+	f  *os.File
+	w  *bufio.Writer
+	n  int
+}
+
+func newFtrace(path string) *ftrace {
+	f, err := os.Create(path)
+	vh.Must(err, "trace file")
+	return &ftrace{f: f, w: bufio.NewWriterSize(f, 1<<20)}
+}
+
+func (t *ftrace) Emit(e vh.Ev) int {
+	b, err := json.Marshal(e)
+	if err != nil {
+		panic(err)
+	}
+	t.mu.Lock()
+	defer t.mu.Unlock()
+	t.w.Write(b)
+	t.w.WriteByte('\n')
+	t.n++
+	return t.n
+}
+
+func (t *ftrace) Len() int { t.mu.Lock(); defer t.mu.Unlock(); return t.n }
+func (t *ftrace) Flush()   { t.mu.Lock(); t.w.Flush(); t.mu.Unlock() }
+func (t *ftrace) Close()   { t.mu.Lock(); t.w.Flush(); t.f.Close(); t.mu.Unlock() }
